@@ -9,7 +9,7 @@ import itertools
 
 import ECAgent.Batching as B
 
-from simkit.simpool import make_pool
+from simkit.simpool import SimPoolHang, make_pool
 from . import workloads as W
 
 PROPERTY = "C15"
@@ -30,7 +30,8 @@ COMPONENTS = {"real": ["ECAgent.Batching.batch_run", "_run_model_for_batch", "_b
 PROBES = ["completion_reordered", "all_results_from_one_worker", "tie_in_finish_times", "fail_first", "fail_last",
           "max_ts_at_completion", "max_ts_below_completion", "max_ts_zero", "reps_single_combination",
           "collectors_none", "collectors_empty_list", "collectors_invalid", "parameterlist_input", "serial_order_checked",
-          "second_batch_same_process", "parameterlist_reused_edit_returned", "parameterlist_reused_grid_search_first"]
+          "second_batch_same_process", "parameterlist_reused_edit_returned", "parameterlist_reused_grid_search_first", "sibling_parameterlist_edited",
+          "model_with_own_timestep_attribute"]
 TECHNIQUE = "deterministic simulation: simulated worker pool (seeded durations, tie-breaks, pickle boundary, failing executions at every position) with an exactly-once ledger and self-identifying records"
 LEVEL_TEXT = ("Seeded search over grid shapes, repetitions, step limits, collector selections and simulated pool schedules; an "
               "in-process execution ledger and self-identifying records decide exactly-once, no loss/duplication/mixing, "
@@ -129,7 +130,7 @@ def generate(rng, tier):
     procs = rng.choice([1, 1, 2, 2, 3, 4, 5, 8, 16, rng.randint(2, 16)])
     fail = None
     r = rng.random()
-    exc = rng.choice(["BatchFailure"] * 4 + sorted(W.FAIL_EXC))
+    exc = rng.choice(["BatchFailure"] * 4 + sorted(W.FAIL_EXC) + W.OWN_EXC)
     if r < 0.12:
         fail = {"k": "all", "where": rng.choice(["ctor", "system"]), "t": rng.randint(0, 3), "exc": exc}
     elif r < 0.25:
@@ -144,7 +145,8 @@ def generate(rng, tier):
     prebuild = None
     if rng.random() < 0.25:
         prebuild = rng.choice(["edit_returned", "grid_search_first", "build_only"])
-    return {"prebuild": prebuild, "second": second, "grid": grid, "via": rng.choice(["dict", "plist"]), "reps": reps, "max_ts": max_ts, "collectors": coll,
+    return {"sibling": rng.random() < 0.15, "shadow_timestep": rng.choice([None, None, None, None, 0.25, 2.0, 7]),
+            "prebuild": prebuild, "second": second, "grid": grid, "via": rng.choice(["dict", "plist"]), "reps": reps, "max_ts": max_ts, "collectors": coll,
             "processes": procs, "base_stop": base_stop, "spread": spread, "pool": gen_pool(rng, size * reps),
             "fail": fail}
 
@@ -162,6 +164,12 @@ def build_args(sc):
     if len(set(names)) != len(names):
         raise ValueError("duplicate parameter name")
     raw = {n: decode_values(s) for n, s in sc["grid"]}
+    if sc.get("sibling"):
+        # another ParameterList is built from the very same dict and then edited: the dict given to batch_run stays as it was
+        sib = B.ParameterList(raw)
+        sib.add_parameter("zz_extra", [1, 2, 3])
+        if names:
+            sib.remove_parameter(names[0])
     params = B.ParameterList(raw) if sc["via"] == "plist" else raw
     if sc.get("prebuild") and isinstance(params, B.ParameterList):
         # the same ParameterList object has been used before this batch
@@ -241,7 +249,8 @@ def one_batch(ctx, sc, fail, label):
     params, combos, coll = build_args(sc)
     reps = int(sc["reps"])
     E = [W.sig_of(c) for c in combos] * reps
-    W.reset({"base_stop": sc["base_stop"], "spread": sc["spread"], "fail": fail, "collectors_defined": COLLECTORS})
+    W.reset({"base_stop": sc["base_stop"], "spread": sc["spread"], "fail": fail, "collectors_defined": COLLECTORS,
+             "shadow_timestep": sc.get("shadow_timestep")})
     stats = {}
     kwargs = {"collectors": coll, "processes": sc["processes"], "repetitions": reps}
     if sc["max_ts"] is not None:
@@ -251,6 +260,9 @@ def one_batch(ctx, sc, fail, label):
     before = [(k, repr(v)) for k, v in (params._parameters if isinstance(params, B.ParameterList) else params).items()]
     try:
         st, val = ctx.call(B.batch_run, W.BatchModel, params, **kwargs)
+    except SimPoolHang as h:
+        ctx.fail("hang", f"batch_run would never return (processes={sc['processes']}, failing execution raised "
+                         f"{(fail or {}).get('exc')}): {h}")
     finally:
         B.Pool = old
     after = [(k, repr(v)) for k, v in (params._parameters if isinstance(params, B.ParameterList) else params).items()]
@@ -282,7 +294,8 @@ def one_batch(ctx, sc, fail, label):
             ctx.check(st == "exc", "error-dropped",
                       f"execution #{k} ({sig}) raised {fail.get('exc', 'BatchFailure')} in {fail['where']} with "
                       f"processes={sc['processes']} but batch_run returned normally")
-            want_exc = W.FAIL_EXC.get(fail.get("exc", "BatchFailure"), W.BatchFailure)
+            import ECAgent.Core as _core
+            want_exc = W.FAIL_EXC.get(fail.get("exc", "BatchFailure")) or getattr(_core, fail.get("exc", ""), W.BatchFailure)
             if want_exc is StopIteration:
                 # a StopIteration cannot travel through an iterator protocol as an error; the documented way out is the
                 # PEP 479 conversion, so a RuntimeError reaching the caller counts as "the error reached the caller"
@@ -336,6 +349,10 @@ def execute(sc, ctx):
         return
     if sc["max_ts"] == 0:
         ctx.probe("max_ts_zero")
+    if sc.get("sibling"):
+        ctx.probe("sibling_parameterlist_edited")
+    if sc.get("shadow_timestep") is not None:
+        ctx.probe("model_with_own_timestep_attribute")
     if sc["via"] == "plist":
         ctx.probe("parameterlist_input")
         if sc.get("prebuild"):
